@@ -54,17 +54,22 @@ func NewWorld(env *kernel.Env) *World {
 	db := memory.NewDatabase("d")
 	pro := memory.NewDBProvider(db)
 	w := &World{Env: env, Pro: pro, DB: db, Eng: sqle.NewDefault(pro), perTable: map[string]int{}}
+	w.rehook()
+	return w
+}
+
+// rehook (re)installs this world's fault and ordering hooks.
+func (w *World) rehook() {
 	verifhook.FaultFn = w.faultFn
 	// ordering seam: sequences derived from Go map iteration inside the engine
 	// are sorted under the verif tag; with PermuteOrder the tape then permutes
 	// them, so that the order is explored instead of being left to the runtime
 	verifhook.OrderFn = func(n int, swap func(i, j int)) {
 		if w.PermuteOrder && n > 1 {
-			env.T.Perm(n, swap)
-			env.Probe("map-order-permuted")
+			w.Env.T.Perm(n, swap)
+			w.Env.Probe("map-order-permuted")
 		}
 	}
-	return w
 }
 
 // Close detaches the hooks.
